@@ -6,7 +6,7 @@ import itertools, os, random, time
 from .common import *
 from .modelrun import *
 from kv.pool import fan_out
-from kvmodel.gen import Gen
+from kvmodel.gen import Gen, GenFn
 from kvmodel.printer import Printer, TRACE_PRELUDE
 
 PID = "C01"
@@ -28,7 +28,8 @@ def _kgen_shard(shard, n, tier, seed, budget_s, features=(), profile="core", n_p
     while time.time() < t_end and (n_programs is None or i < n_programs):
         i += 1
         rng = random.Random((seed * 1000003 + shard) * 1000003 + i)
-        g = Gen(rng, max_depth=rng.choice([2, 3, 3, 4]) if tier == "quick" else rng.choice([2, 3, 4, 5]), stmts=rng.randint(2, 10), features=set(features))
+        G = {"core": Gen, "fn": GenFn}.get(profile) or getattr(__import__("kvmodel.gen", fromlist=["x"]), profile)
+        g = G(rng, max_depth=rng.choice([2, 3, 3, 4]) if tier == "quick" else rng.choice([2, 3, 4, 5]), stmts=rng.randint(2, 10), features=set(features))
         prog = g.program()
         text = Printer().program(prog)
         m = model_outcome(prog)
@@ -207,6 +208,9 @@ def run(tier, seed):
         return chk.finish({"evaluations": 0, "distinct_nontrivial": 0, "rule": "", "samples": []})
     quick = tier == "quick"
     cov = {"evaluations": 0, "distinct_nontrivial": 0, "samples": [], "streams": {}, "passenger_observations": [], "passenger_src": []}
+    w = Worker()
+    cov["witnesses_replayed"] = replay_witnesses(chk, w)
+    w.close()
     only = os.environ.get("KV_STREAMS")
     if not only or "kgen" in only:
         fold(chk, cov, "kgen-core", fan_out(_kgen_shard, tier=tier, seed=seed, budget_s=22 if quick else 420))
